@@ -89,6 +89,8 @@ func ruleText(r orchRule) string {
 		b.WriteString("if true {\n break\n}\nreturn 6\n")
 	case "straycont":
 		b.WriteString("continue\n")
+	case "bigfail": // fails with a diagnostic of several MiB: recording the error takes the engine milliseconds
+		b.WriteString("boom()\n")
 	}
 	b.WriteString("end\n")
 	return b.String()
@@ -123,13 +125,15 @@ func genOrchCase(r *rng, i int, methods []string) *orchCase {
 			ru.Beh = "failret"
 		case p < 93:
 			ru.Beh = "retafterfail"
-		case p < 97:
+		case p < 96:
 			ru.Beh = "straybreak"
-		default:
+		case p < 98:
 			ru.Beh = "straycont"
+		default:
+			ru.Beh = "bigfail"
 		}
 		// fewer failures in half of the cases so that later stages are reached
-		if r.chance(1, 2) && (ru.Beh == "fail" || ru.Beh == "failret" || ru.Beh == "retafterfail" || ru.Beh == "straybreak" || ru.Beh == "straycont") && r.chance(2, 3) {
+		if r.chance(1, 2) && (ru.Beh == "fail" || ru.Beh == "failret" || ru.Beh == "retafterfail" || ru.Beh == "straybreak" || ru.Beh == "straycont" || ru.Beh == "bigfail") && r.chance(2, 3) {
 			ru.Beh = "ret"
 		}
 		switch ru.Beh {
@@ -142,7 +146,7 @@ func genOrchCase(r *rng, i int, methods []string) *orchCase {
 			ru.Fails = true
 		case "failret":
 			ru.Fails = true // flag: see the P-6 discussion in DESIGN.md; the spec says no entry
-		case "retafterfail", "straybreak", "straycont":
+		case "retafterfail", "straybreak", "straycont", "bigfail":
 			ru.Fails = true
 		}
 		if strings.Contains(c.Method, "StopTag") && r.chance(1, 4) {
@@ -280,6 +284,8 @@ type orchEnv struct {
 	g    *engine.Gengine
 }
 
+var bigDiagnostic = strings.Repeat("diagnostic ", 400000)
+
 // prepOrchCase builds the rules with the real builder, measures every rule's own outcome and
 // (optionally) performs a previous call on the same engine.  A fresh engine has a nil result map.
 func prepOrchCase(c *orchCase, usePrev bool) *orchEnv {
@@ -288,6 +294,7 @@ func prepOrchCase(c *orchCase, usePrev bool) *orchEnv {
 	dc := context.NewDataContext()
 	dc.Add("gate", ctl.gate)
 	dc.Add("stag", stag)
+	dc.Add("boom", func() { panic(bigDiagnostic) })
 	rb := builder.NewRuleBuilder(dc)
 	if err := rb.BuildRuleFromString(c.Text); err != nil {
 		c.Obs = orchObs{Outcome: "builderr", Note: err.Error()}
